@@ -4,6 +4,8 @@ import GrinVerif.Model.SerMsg
 import GrinVerif.Model.SerStore
 import GrinVerif.Model.DecVerify
 import GrinVerif.Model.SerIds
+import GrinVerif.Model.SerDb
+import GrinVerif.Model.SerImpls
 /-! Driver glue for the `ser` domain (line protocol handler).
 
     ser const <name>                                   => <value>
@@ -18,11 +20,15 @@ import GrinVerif.Model.SerIds
     ser prepow <chain A|M> <header tokens…>            => <BlockHeader::pre_pow()>
     ser shortid <item hash> <block hash> <nonce>       => <short_id, 6 bytes>
     ser mvlive <path hashes> <mmr_size> <live peak>    => as-model | differs:model=<bytes>   (MerkleProof::verify)
+    ser impl <R|W> <file> <type> <fingerprint>         => listed | changed:<fp> | unlisted | listed-but-no-codec:<n>
+    ser implcount <#Readable> <#Writeable>             => ok | model-lists:<r>,<w> | unknown-codec-names
+
+`dec` lines of `PeerData` carry the clock value the decoder used as `PeerData@<now>`.
 
 `enc@v` is the model's re-encoding of the decoded value at protocol version v (`E:<err>` when the
 writer refuses), `hash` the blake2b-256 of the hash-mode bytes for types that have a hash. -/
 namespace GV.Drv.SerD
-open GV GV.Drv GV.Ser GV.SerSeg GV.SerMsg
+open GV GV.Drv GV.Ser GV.SerSeg GV.SerMsg GV.SerDb
 
 structure St where
   dummy : Unit := ()
@@ -440,6 +446,66 @@ def cMsgHeader (net : NetCfg) : Codec (Nat × Nat) :=
     hashB := fun _ _ => none,
     parse := fun ts => do let (t, ts) ← tNat ts; let (l, ts) ← tNat ts; pure ((t, l), ts) }
 
+/-! ### database values and small wrappers (`Model/SerDb.lean`) -/
+
+def tNrdList : TokP (ListWrapper CommitPos)
+  | "S" :: ts => do let (c, ts) ← tCommitPos ts; pure (.single c, ts)
+  | "M" :: ts => do let (h, ts) ← tNat ts; let (t, ts) ← tNat ts; pure (.multi h t, ts)
+  | _ => none
+
+def tNrdEntry : TokP (ListEntry CommitPos)
+  | "H" :: ts => do let (c, ts) ← tCommitPos ts; let (n, ts) ← tNat ts; pure (.head c n, ts)
+  | "T" :: ts => do let (c, ts) ← tCommitPos ts; let (p, ts) ← tNat ts; pure (.tail c p, ts)
+  | "Mid" :: ts => do
+    let (c, ts) ← tCommitPos ts
+    let (n, ts) ← tNat ts
+    let (p, ts) ← tNat ts
+    pure (.middle c n p, ts)
+  | _ => none
+
+def tBlockSums : TokP BlockSums := fun ts => do
+  let (u, ts) ← tHex ts
+  let (k, ts) ← tHex ts
+  pure ({ utxoSum := u, kernelSum := k }, ts)
+
+def tSizeEntry : TokP SizeEntry := fun ts => do
+  let (o, ts) ← tNat ts
+  let (s, ts) ← tNat ts
+  pure ({ offset := o, size := s }, ts)
+
+def tPeerData : TokP PeerData := fun ts => do
+  let (a, ts) ← tPeerAddr ts
+  let (c, ts) ← tNat ts
+  let (ua, ts) ← tHex ts
+  let (fl, ts) ← tNat ts
+  let (lb, ts) ← tInt ts
+  let (br, ts) ← tNat ts
+  let (lc, ts) ← tInt ts
+  let (la, ts) ← tInt ts
+  pure ({ addr := a, capabilities := c, userAgent := ua, flags := fl, lastBanned := lb, banReason := br,
+          lastConnected := lc, lastAttempt := la }, ts)
+
+def cNrdList : Codec (ListWrapper CommitPos) := plain decNrdList encNrdList tNrdList
+def cNrdEntry : Codec (ListEntry CommitPos) := plain decNrdEntry encNrdEntry tNrdEntry
+def cBlockSums : Codec BlockSums := plain decBlockSums encBlockSums tBlockSums
+def cSizeEntry : Codec SizeEntry := plain decSizeEntry encSizeEntry tSizeEntry
+def cProtocolVersion : Codec Nat := plain decProtocolVersion encProtocolVersion tNat
+def cI32 : Codec Int := plain readI32 writeI32 tInt
+def cFixed (n : Nat) : Codec Bytes := plain (decFixedN n) encFixedN tHex
+def cTuple2 : Codec (Nat × Nat) :=
+  plain (decPair readU64 readU32) (encPair writeU64 writeU32)
+    (fun ts => do let (a, ts) ← tNat ts; let (b, ts) ← tNat ts; pure ((a, b), ts))
+def cTuple3 : Codec (Nat × Nat × Nat) :=
+  plain (decTriple readU64 readU32 readU16) (encTriple writeU64 writeU32 writeU16)
+    (fun ts => do let (a, ts) ← tNat ts; let (b, ts) ← tNat ts; let (c, ts) ← tNat ts; pure ((a, b, c), ts))
+def cTuple4 : Codec (Nat × Nat × Nat × Nat) :=
+  plain (decQuad readU64 readU32 readU16 readU8) (encQuad writeU64 writeU32 writeU16 writeU8)
+    (fun ts => do
+      let (a, ts) ← tNat ts; let (b, ts) ← tNat ts; let (c, ts) ← tNat ts; let (d, ts) ← tNat ts
+      pure ((a, b, c, d), ts))
+/-- `now` = the clock value `PeerData::read` substitutes for a missing `last_connected` -/
+def cPeerData (now : Int) : Codec PeerData := plain (decPeerData now) encPeerData tPeerData
+
 def netOf (chain : String) : NetCfg :=
   if chain == "M" then { magic := GV.Gen.Msg.MAINNET_MAGIC, mbw := GV.Gen.MAX_BLOCK_WEIGHT }
   else { magic := GV.Gen.Msg.OTHER_MAGIC, mbw := GV.Gen.TESTING_MAX_BLOCK_WEIGHT }
@@ -496,7 +562,47 @@ def withCodec (ty : String) (k : {α : Type} → Codec α → Option String) : O
   | "OutputIdVec" => k cOutputIdVec
   | "MsgHeaderA" => k (cMsgHeader (netOf "A"))
   | "MsgHeaderM" => k (cMsgHeader (netOf "M"))
-  | _ => none
+  | "NrdList" => k cNrdList
+  | "NrdEntry" => k cNrdEntry
+  | "BlockSums" => k cBlockSums
+  | "SizeEntry" => k cSizeEntry
+  | "ProtocolVersion" => k cProtocolVersion
+  | "I32" => k cI32
+  | "TupleU64U32" => k cTuple2
+  | "TupleU64U32U16" => k cTuple3
+  | "TupleU64U32U16U8" => k cTuple4
+  | "Commitment" => k (cFixed COMMIT_SIZE)
+  | "BlindingFactor" => k (cFixed SECRET_KEY_SIZE)
+  | "Identifier" => k (cFixed IDENTIFIER_SIZE)
+  | "Signature" => k (cFixed SIGNATURE_SIZE)
+  | "Hash" => k (cFixed HASH_SIZE)
+  | "PeerData" => k (cPeerData 0)
+  | other =>
+    match other.splitOn "@" with
+    | ["PeerData", now] => now.toInt?.bind fun n => k (cPeerData n)
+    | _ => none
+
+/-- does the dispatch know this type name? -/
+def hasCodec (n : String) : Bool := (withCodec n fun _ => some "").isSome
+
+/-- `ser impl`: the table's answer, and a listed impl must point at something the driver compares -/
+def runImpl (kind file ty : String) (fp : Nat) : String :=
+  let a := GV.SerImpls.answer kind file ty fp
+  if a != "listed" then a
+  else match GV.SerImpls.lookup kind file ty with
+    | some i =>
+      (match i.cover with
+       | .op n => if GV.SerImpls.opNames.contains n then a else s!"listed-but-no-op:{n}"
+       | .excluded _ => a
+       | c => match c.ref? with
+         | some n => if hasCodec n then a else s!"listed-but-no-codec:{n}"
+         | none => a)
+    | none => a
+
+def runImplCount (r w : Nat) : String :=
+  if !(GV.SerImpls.codecNames.all hasCodec) then "unknown-codec-names"
+  else if GV.SerImpls.count "R" = r ∧ GV.SerImpls.count "W" = w then "ok"
+  else s!"model-lists:{GV.SerImpls.count "R"},{GV.SerImpls.count "W"}"
 
 def showPrim {α : Type} (sh : α → String) (bs : Bytes) : Except SerErr (α × Bytes) → String
   | .ok (x, r) => s!"ok {sh x} {bs.length - r.length}"
@@ -628,6 +734,10 @@ def handle (st : St) (args : List String) (impl : String) : St × Verdict :=
       let b ← parseHex blk
       let n ← nonce.toNat?
       some (toHex (shortId h256 i b n))))
+  | ["impl", kind, file, ty, fp] =>
+    (st, ofOpt impl (fp.toNat?.map fun n => runImpl kind file ty n))
+  | ["implcount", r, w] =>
+    (st, ofOpt impl (do let r ← r.toNat?; let w ← w.toNat?; some (runImplCount r w)))
   | ["fromvec", hex] =>
     (st, ofOpt impl ((parseHex hex).map fun bs => toHex (hashFromVec bs)))
   | _ => (st, .unknown)
